@@ -140,6 +140,7 @@ def enc_cfg(cfg):
 
 def make_cfg(rules, strict=True, merge=True, hm=False, bind=None):
     b = dict(bind or rt.DEFAULT_BIND)
+    rules = [dict(r, endpoint=r["endpoint"] or f"e{i + 1}") for i, r in enumerate(rules)]
     return {"rules": rules, "map": {"strict": strict, "merge": merge, "rd": True, "hm": hm}, "bind": b}
 
 
@@ -275,13 +276,40 @@ def build_xmap(cfg):
             kw["redirect_to"] = rt_string(t)
         elif t["k"] == "fn":
             kw["redirect_to"] = _fn(i + 1, t, log)
-        objs.append(Rule(rule_string(r), endpoint=r["endpoint"] or f"e{i + 1}", methods=r["methods"],
+        ep = r["endpoint"] or f"e{i + 1}"
+        string = rule_string(r)
+        via = cfg.get("via")
+        if via in ("submount", "template"):
+            # the record carries the prefix segment the factory adds (sm / usr): the wrapped rule is written without it
+            rest = dict(r, segs=r["segs"][1:])
+            string = rule_string(rest)
+            if via == "template":
+                string, ep = "/$name" + (string if rest["segs"] else "/"), "$name." + ep[4:]
+        elif via == "prefix":
+            ep = ep[3:]                                   # the record's endpoint is "pf." + this
+        objs.append(Rule(string, endpoint=ep, methods=r["methods"],
                          strict_slashes=rt._TRI[r["strict"]], merge_slashes=rt._TRI[r["merge"]],
                          websocket=r["ws"], build_only=r["bo"], **kw))
     conv = custom_converters()
     if cfg["map"].get("dflt") == "int":
         conv["default"] = IntegerConverter
-    m = Map(objs, strict_slashes=cfg["map"]["strict"], merge_slashes=cfg["map"]["merge"], host_matching=hm, converters=conv)
+    facs = objs
+    if cfg.get("via") == "submount":
+        from werkzeug.routing import Submount
+        facs = [Submount("/sm", objs[:1]), Submount("/sm/", objs[1:])]
+    elif cfg.get("via") == "prefix":
+        from werkzeug.routing import EndpointPrefix
+        facs = [EndpointPrefix("pf.", objs)]
+    elif cfg.get("via") == "template":
+        from werkzeug.routing import RuleTemplate
+        facs = [RuleTemplate(objs)(name="usr")]
+    m = Map(facs, strict_slashes=cfg["map"]["strict"], merge_slashes=cfg["map"]["merge"], host_matching=hm, converters=conv)
+    if cfg.get("via"):
+        # the factories put copies into the map: find them by their (unique) endpoints
+        byep = {}
+        for o in m.iter_rules():
+            byep.setdefault(str(o.endpoint), []).append(o)
+        objs = [byep.get(r["endpoint"], [None])[0] for r in cfg["rules"]]
     b = cfg["bind"]
     if hm:
         ad = m.bind(b["server"], b["script"], url_scheme=b["scheme"])
@@ -369,8 +397,13 @@ def run_ops(arg):
     from werkzeug.routing import BuildError
 
     cfg, ops = arg
-    m, ad, objs, log = build_xmap(cfg)
     out = [enc_cfg(cfg)]
+    try:
+        m, ad, objs, log = build_xmap(cfg)
+    except Exception as e:          # the map cannot even be built: recorded, judged as UnexpectedException
+        bad = {"kind": "other", "rule": 0, "args": [], "url": [], "methods": [], "exc": type(e).__name__, "fnrule": 0, "fnargs": [], "fnadapter": False}
+        return out + [{"op": "match", "i": i, "path": cps(op.get("path", "/")), "method": op.get("method", "GET"), "wsarg": "none", "r": bad}
+                      for i, op in enumerate(ops)]
     for i, op in enumerate(ops):
         k = op["op"]
         ln = {"op": k, "i": i}
@@ -642,8 +675,17 @@ def random_xmap(rng, quick):
         else:
             sub = dom
     bind = {"scheme": rng.choice(SCHEMES), "server": server, "script": rng.choice(SCRIPTS), "sub": sub}
+    via = rng.choice([None, None, None, "submount", "prefix", "template"])
+    if via == "template" and (mode == "sub" or any("$" in rule_string(r) or "$" in (host_string(r) or "") for r in rules)):
+        via = "submount"          # string.Template would read a literal '$'; RuleTemplate also expands the subdomain
+    if via in ("submount", "template"):
+        pre = "sm" if via == "submount" else "usr"
+        rules = [dict(r, segs=[rt.lit(pre)] + r["segs"], branch=r["branch"] or not r["segs"]) for r in rules]
+    for i, r in enumerate(rules):
+        r["endpoint"] = {"prefix": "pf.", "template": "usr."}.get(via, "") + f"e{i + 1}"
     cfg = make_cfg(rules, rng.random() < 0.6, rng.random() < 0.7, hm, bind)
     cfg["decoy"] = rng.random() < 0.3
+    cfg["via"] = via
     paths = rt.paths_for(rules, rng, 12 if quick else 30, extra=extra_tokens(rules))
     return cfg, probe_ops(rng, cfg, paths, full=not quick)
 
